@@ -19,6 +19,9 @@ Three parties per case:
     blurred border, the result read back at landmarks under non-affine transforms; plus the exact quantities behind the
     square-root contract parameters.
 Tables regenerated from the live classes on every run: harness/extract_c01.py.
+The Python-level plumbing of the operations TRANSLATED from the source text on every run: harness/trans_c01.py
+(Generated/C01Src.lean, C01Src3.lean; obligations GenProps/C01Src.lean, C01SrcProps.lean, C01SrcConstrain.lean,
+C01Src3.lean, C01Src3Props.lean).
 """
 import json
 import math
@@ -37,7 +40,11 @@ INFO = dict(
               "operation sequences; a symmetric normalised blur keeps an affine ramp; pseudoinverse closed forms of the "
               "homogeneous family) + 6 `decide` obligations over tables regenerated from the live classes on every run "
               "(method resolution and defaults of the three image classes, pseudoinverse suppliers of the family, the "
-              "arguments each operation hands to warp_to_shape) + model/implementation correspondence (query protocol: "
+              "arguments each operation hands to warp_to_shape) + the TRANSLATOR TIE: 41 functions of menpo/image/base.py, "
+              "masked.py, boolean.py, interpolation.py and menpo/transform/compositions.py are translated from their SOURCE "
+              "TEXT into Lean on every run (harness/trans_c01.py, py2lean2 + py2lean2w + py2lean2c) and proved equal, for all "
+              "arguments, to the plans executed through the funnel - 23 of them a second time, from the same text, over a 3-D vocabulary (94 obligations re-checked by lake on every run) + "
+              "model/implementation correspondence (query protocol: "
               "shapes, transforms, landmarks, sampled pixels and mask pixels, whole operation sequences) + an independent "
               "registration oracle on analytically known images",
     level_text="Theorems over an executable rational model of Image.sample (scipy map_coordinates, orders 0/1, modes "
@@ -72,7 +79,39 @@ INFO = dict(
                "of pyramid and gaussian_pyramid); (f) the closed forms Rotation(inv R), NonUniformScale(1/s), "
                "UniformScale(1/s), Translation(-t) are the matrix inverse on the matrices their classes hold, so every class "
                "of the family moves landmarks by the inverse of the map used for the pixels; (g) each operation hands "
-               "warp_to_shape exactly the order/mode its plan carries.  Tied to /repo by three tables regenerated from the "
+               "warp_to_shape exactly the order/mode its plan carries.  Part 3 (the translator tie, GenProps/C01Src.lean + "
+               "C01SrcProps.lean): the "
+               "following functions are TRANSLATED from the source text of the working tree rather than transcribed - "
+               "interpolation.scipy_interpolation (the loop over channels); Image/MaskedImage/BooleanImage.sample; "
+               "Image._build_warp_to_shape; Image/MaskedImage/BooleanImage.warp_to_shape (which order / mode / cval each override "
+               "forces, that the mask is warped separately through the same transform, that landmarks are moved by "
+               "transform.pseudoinverse()); Image/BooleanImage._build_warp_to_mask, Image/MaskedImage/BooleanImage.warp_to_mask; "
+               "round_image_shape, Image.centre, Image.diagonal, Image.constrain_points_to_bounds; "
+               "compositions.transform_about_centre / scale_about_centre; Image.crop, crop_to_pointcloud, crop_to_landmarks, both "
+               "_proportion variants, BooleanImage.bounds_true, MaskedImage.crop_to_true_mask; Image.rescale (the try/except on "
+               "len(scale), the positivity loop, template shape with each round mode, index-space factors, "
+               "NonUniformScale(factors).pseudoinverse(), mode nearest), rescale_to_diagonal, rescale_to_pointcloud, "
+               "rescale_landmarks_to_diagonal_range, resize; zoom; rotate_ccw_about_centre; transform_about_centre (both "
+               "retain_shape branches, bounding box, re-origin translation); mirror; the generators pyramid and "
+               "gaussian_pyramid; the in-place operations Image.constrain_landmarks_to_bounds (the loops over groups and axes), "
+               "BooleanImage.constrain_to_pointcloud / constrain_to_landmarks and MaskedImage.constrain_mask_to_landmarks (option "
+               "ladder, integer bounding box, index filter, slices, flat assignment): proved to keep pixels, shape, class and "
+               "landmarks (registered through the identity) and to set the mask to the containment test inside the bounding "
+               "box, False elsewhere; the index filter and the slices select the same pixels when the box starts inside the "
+               "image (constrain_sets_agree; a witness shows they differ when it does not).  The n-D functions (sampler, funnel, the three "
+               "warp_to_shape, round_image_shape, centre, constrain_points_to_bounds, the compositions, crop and its pointcloud / "
+               "landmark / proportion wrappers, rescale, resize, zoom, mirror, pyramid) are translated A SECOND TIME FROM THE SAME "
+               "SOURCE TEXT over vectors of length 3 (Core/C01Src3.lean) and proved equal to the 3-D plans executed through the "
+               "funnel for every interpolation order (GenProps/C01Src3.lean), with the property restated for 3-D objects "
+               "(Registered3, cropResult3_exact).  A `self.method(...)` call site is normalised against the signature AND THE DEFAULTS of the "
+               "callee as its source has them now, per class of the receiver (method resolution of the live classes).  Every "
+               "translated operation is proved equal - error kinds included - to its plan executed on an image object with any "
+               "number of channels (Plan2.result / cropResult), and the property is restated for what the translated code "
+               "returns (Registered: returned transform, landmarks, every pixel of every channel, mask; registration at grid "
+               "landmarks for every order; affine content under bilinear interpolation; the crop family exact).  The class of "
+               "transform object handed to warp_to_shape (Translation / NonUniformScale / composed) comes from the source, and "
+               "its closed-form pseudoinverse is proved to be the inverse there.  Tied to /repo also by three tables "
+               "regenerated from the "
                "live classes on every run (6 decide obligations) and by running every public operation on "
                "Image/MaskedImage/BooleanImage (float64/float32/uint8/uint16/int16/int32, 1-4 channels, 2-D and 3-D, "
                "orders 0-5, every class of the homogeneous family as the transform argument, C-contiguous, Fortran-ordered "
@@ -80,7 +119,13 @@ INFO = dict(
                "return_transform=True and diffing shape, transform, landmarks, sampled pixels and mask pixels against the "
                "Lean driver; the registration oracle decides the property on the real code.",
     level_note="Trusted: Lean kernel; axioms propext/Classical.choice/Quot.sound; harness incl. harness/extract_c01.py; driver "
-               "parser.  Contract parameters (checked numerically on every run, not proved): scipy.ndimage.map_coordinates "
+               "parser; the translator harness/py2lean2.py + py2lean2w.py + py2lean2c.py (self-tests tools/test_py2lean2*.py) "
+               "and the C01 vocabulary harness/trans_c01.py: numpy vector arithmetic, PointCloud.bounds / range, the "
+               "constructors and compose_before of the transform classes (class ladder: C03), boolean-mask indexing, the "
+               "LandmarkManager setter, `self.mask` being a BooleanImage are vocabulary (their meaning is Core/C01Src.lean's, "
+               "tied by the correspondence); the 2-D typing of vectors (`n_dims` = 2); the point-in-pointcloud test of the constrain "
+               "operations (PiecewiseAffine containment, C09) is a contract parameter: the oracle judges the new mask against the "
+               "exact convex hull of the group, the driver receives the containment bits of the queried pixels.  Contract parameters (checked numerically on every run, not proved): scipy.ndimage.map_coordinates "
                "implements orders 0/1 with the half-up rounding and the constant/nearest boundary rules of the model, and "
                "orders 2-5 are interpolating (return the pixel at a grid point); np.linalg.inv is the matrix inverse (the "
                "closed-form pseudoinverses of Rotation / the scales / Translation are proved, the generic one is C04); "
@@ -105,16 +150,21 @@ INFO = dict(
              "reproduction of affine content by splines (which holds only away from the border) is not modelled",
              "outputs with an extent of a single pixel (scale*len <= 1) are outside the modelled domain: the index-space "
              "factor of Image.rescale is 0 or negative there and no registration is possible on one pixel",
-             "integer dtypes: registration holds up to the rounding of the stored value (half a level per resampling)",
-             "MaskedImage.constrain_mask_to_landmarks / BooleanImage.constrain_to_landmarks / constrain_to_pointcloud change "
-             "the mask by a point-in-triangulation test and do not resample or re-frame: not modelled",
-             "3-D: the part-2 theorems (orders above 1, non-affine bound, sequences) are stated in 2-D only"],
+             "integer dtypes: proved for registration at grid landmarks (int_registration_grid: within half a level for any "
+             "store that rounds to a nearest integer, exact for order 0 on integer content); that scipy's cast of the output "
+             "array is such a store is a contract (compared to within half a level on every integer case); the bilinear "
+             "registration of affine content is not restated for the rounded result",
+             "3-D: every interpolation order is covered for the translated n-D operations (funnel identity per channel, "
+             "landmarks / returned transform / mask, registration at grid landmarks, affine content under trilinear "
+             "interpolation: GenProps/C01Src3Props.lean); the non-affine bound (piecewise affine / spline warps), the sequence "
+             "theorems and the sampling registration of sub-pixel landmarks of a crop are stated in 2-D only"],
     assumptions=["scipy.ndimage.map_coordinates orders 0/1 follow the documented constant/nearest rules; orders 2-5 interpolate",
                  "numpy trigonometric functions and square roots are accurate to 1e-12",
                  "ThinPlateSplines.pseudoinverse is repaired (notes/fixes/C04-tps-pseudoinverse-kernel.diff); on a tree "
                  "without that fix the TPS landmark clause is reported as a violation"],
     design_ref="DESIGN.md section 6, C01")
-IMPORTS = ["MenpoModel.Props.C01", "MenpoModel.GenProps.C01"]
+IMPORTS = ["MenpoModel.Props.C01", "MenpoModel.GenProps.C01", "MenpoModel.GenProps.C01SrcProps",
+           "MenpoModel.GenProps.C01SrcConstrain", "MenpoModel.GenProps.C01Src3Props"]
 THEOREMS = [
     "MenpoModel.C01.bilin_reproduces_affine", "MenpoModel.C01.trilin_reproduces_affine",
     "MenpoModel.C01.funnel_pixel", "MenpoModel.C01.warpF_registration_affine2",
@@ -155,6 +205,9 @@ THEOREMS = [
     "MenpoModel.C01.axis1_linear_flip", "MenpoModel.C01.mirror_exact_registration_linear",
     "MenpoModel.C01.rescale_plan_shape", "MenpoModel.C01.rescale_landmark",
     "MenpoModel.C01.rescale_landmarks_stay_inside", "MenpoModel.C01.rescale_registration",
+    # integer dtypes
+    "MenpoModel.C01.roundHalfEven_store", "MenpoModel.C01.int_registration_grid",
+    "MenpoModel.C01.int_registration_grid_order0",
     # gaussian pyramid
     "MenpoModel.C01.blurAxis_affine_interior", "MenpoModel.C01.blur2_affine_interior",
     "MenpoModel.C01.warpF_registration_affine2_local", "MenpoModel.C01.gauss_step_registration",
@@ -168,6 +221,137 @@ THEOREMS = [
     "MenpoModel.C01.GenProps.dispatch_ok", "MenpoModel.C01.GenProps.family_ok", "MenpoModel.C01.GenProps.family_sound",
     "MenpoModel.C01.GenProps.funnel_masked_ok", "MenpoModel.C01.GenProps.funnel_image_ok",
     "MenpoModel.C01.GenProps.funnel_boolean_ok",
+    # the translator tie (GenProps/C01Src.lean): every definition translated from the source text = the model
+    "MenpoModel.C01.GenProps.genScipyInterpolation_eq",
+    "MenpoModel.C01.GenProps.genImageSample_eq",
+    "MenpoModel.C01.GenProps.genBooleanSample_eq",
+    "MenpoModel.C01.GenProps.genMaskedSample_eq",
+    "MenpoModel.C01.GenProps.sample_dispatch",
+    "MenpoModel.C01.GenProps.genBuildWarpToShape_eq",
+    "MenpoModel.C01.GenProps.genImageWarpToShape_eq",
+    "MenpoModel.C01.GenProps.genBooleanWarpToShape_eq",
+    "MenpoModel.C01.GenProps.genMaskedWarpToShape_eq",
+    "MenpoModel.C01.GenProps.warp_dispatch",
+    "MenpoModel.C01.GenProps.genImageBuildWarpToMask_eq",
+    "MenpoModel.C01.GenProps.genImageWarpToMask_eq",
+    "MenpoModel.C01.GenProps.genMaskedWarpToMask_eq",
+    "MenpoModel.C01.GenProps.genBooleanWarpToMask_eq",
+    "MenpoModel.C01.GenProps.genRoundImageShape_eq",
+    "MenpoModel.C01.GenProps.genRoundImageShape_bad",
+    "MenpoModel.C01.GenProps.genCentre_eq",
+    "MenpoModel.C01.GenProps.genConstrainPointsToBounds_eq",
+    "MenpoModel.C01.GenProps.genTransformAboutCentreT_fam",
+    "MenpoModel.C01.GenProps.genScaleAboutCentre_eq",
+    "MenpoModel.C01.GenProps.genZoom_eq",
+    "MenpoModel.C01.GenProps.genMirror_neg",
+    "MenpoModel.C01.GenProps.genMirror_eq",
+    "MenpoModel.C01.GenProps.genRescale_seq_eq",
+    "MenpoModel.C01.GenProps.genRescale_scalar_eq",
+    "MenpoModel.C01.GenProps.genRescale_short",
+    "MenpoModel.C01.GenProps.genDiagonal_eq",
+    "MenpoModel.C01.GenProps.genRescaleToDiagonal_eq",
+    "MenpoModel.C01.GenProps.genRescaleToPointcloud_eq",
+    "MenpoModel.C01.GenProps.genRescaleLandmarksToDiagonalRange_eq",
+    "MenpoModel.C01.GenProps.genResize_eq",
+    "MenpoModel.C01.GenProps.genCrop_eq",
+    "MenpoModel.C01.GenProps.genCropToPointcloud_eq",
+    "MenpoModel.C01.GenProps.genCropToLandmarks_eq",
+    "MenpoModel.C01.GenProps.genCropToPointcloudProportion_eq",
+    "MenpoModel.C01.GenProps.genCropToLandmarksProportion_eq",
+    "MenpoModel.C01.GenProps.genBoundsTrue_eq",
+    "MenpoModel.C01.GenProps.genCropToTrueMask_eq",
+    "MenpoModel.C01.GenProps.genTransformAboutCentre_eq",
+    "MenpoModel.C01.GenProps.genRotateCcwAboutCentre_eq",
+    "MenpoModel.C01.GenProps.genPyramid_eq",
+    "MenpoModel.C01.GenProps.genGaussianPyramid_eq",
+    "MenpoModel.C01.GenProps.stepObj_refines",
+    "MenpoModel.C01.GenProps.stepGaussObj_refines",
+    "MenpoModel.C01.GenProps.genPyramid_levels",
+    "MenpoModel.C01.GenProps.genGaussianPyramid_levels",
+    "MenpoModel.C01.GenProps.genPyramid_zero",
+    # the property for the translated entry points (GenProps/C01SrcProps.lean)
+    "MenpoModel.C01.GenProps.execObj_channel",
+    "MenpoModel.C01.GenProps.execObj_frame",
+    "MenpoModel.C01.GenProps.execObj_lms",
+    "MenpoModel.C01.GenProps.execObj_mask",
+    "MenpoModel.C01.GenProps.pinv_translation",
+    "MenpoModel.C01.GenProps.pinv_nonUniformScale",
+    "MenpoModel.C01.GenProps.result_transform",
+    "MenpoModel.C01.GenProps.result_landmarks",
+    "MenpoModel.C01.GenProps.result_pixel",
+    "MenpoModel.C01.GenProps.result_pixel_boolean",
+    "MenpoModel.C01.GenProps.result_mask",
+    "MenpoModel.C01.GenProps.result_registration_grid",
+    "MenpoModel.C01.GenProps.result_registration_affine",
+    "MenpoModel.C01.GenProps.result_registered",
+    "MenpoModel.C01.GenProps.registered_of_eq",
+    "MenpoModel.C01.GenProps.rescale_plan_pinv",
+    "MenpoModel.C01.GenProps.genRescale_registered",
+    "MenpoModel.C01.GenProps.genResize_registered",
+    "MenpoModel.C01.GenProps.genRescaleToDiagonal_registered",
+    "MenpoModel.C01.GenProps.genZoom_registered",
+    "MenpoModel.C01.GenProps.genMirror_registered",
+    "MenpoModel.C01.GenProps.genTransformAboutCentre_registered",
+    "MenpoModel.C01.GenProps.genRotateCcwAboutCentre_registered",
+    "MenpoModel.C01.GenProps.cropResult_exact",
+    "MenpoModel.C01.GenProps.genCrop_exact",
+    "MenpoModel.C01.GenProps.genCropToLandmarks_exact",
+    "MenpoModel.C01.GenProps.genCropToLandmarksProportion_exact",
+    "MenpoModel.C01.GenProps.genCropToTrueMask_exact",
+    "MenpoModel.C01.GenProps.warpObj_funnel",
+    "MenpoModel.C01.GenProps.levelsFrom_steps",
+    "MenpoModel.C01.GenProps.genPyramid_steps",
+    "MenpoModel.C01.GenProps.pyramidStepObj_registered",
+    # the in-place operations (GenProps/C01SrcConstrain.lean)
+    "MenpoModel.C01.GenProps.genConstrainLandmarksToBounds_eq", "MenpoModel.C01.GenProps.constrain_sets_agree",
+    "MenpoModel.C01.GenProps.genConstrainToPointcloud_eq", "MenpoModel.C01.GenProps.genConstrainToLandmarks_eq",
+    "MenpoModel.C01.GenProps.genConstrainMaskToLandmarks_eq", "MenpoModel.C01.GenProps.constrainMask_registered",
+    "MenpoModel.C01.GenProps.constrainLandmarks_spec",
+    # the same source text translated over the 3-D vocabulary (GenProps/C01Src3.lean, C01Src3Props.lean)
+    "MenpoModel.C01.GenProps3.genScipyInterpolation_eq",
+    "MenpoModel.C01.GenProps3.genImageSample_eq",
+    "MenpoModel.C01.GenProps3.genBooleanSample_eq",
+    "MenpoModel.C01.GenProps3.genMaskedSample_eq",
+    "MenpoModel.C01.GenProps3.genBuildWarpToShape_eq",
+    "MenpoModel.C01.GenProps3.genImageWarpToShape_eq",
+    "MenpoModel.C01.GenProps3.genBooleanWarpToShape_eq",
+    "MenpoModel.C01.GenProps3.genMaskedWarpToShape_eq",
+    "MenpoModel.C01.GenProps3.genRoundImageShape_eq",
+    "MenpoModel.C01.GenProps3.genCentre_eq",
+    "MenpoModel.C01.GenProps3.genConstrainPointsToBounds_eq",
+    "MenpoModel.C01.GenProps3.genTransformAboutCentreT_fam",
+    "MenpoModel.C01.GenProps3.genScaleAboutCentre_eq",
+    "MenpoModel.C01.GenProps3.genZoom_eq",
+    "MenpoModel.C01.GenProps3.genMirror_neg",
+    "MenpoModel.C01.GenProps3.genMirror_eq",
+    "MenpoModel.C01.GenProps3.genRescale_seq_eq",
+    "MenpoModel.C01.GenProps3.genRescale_scalar_eq",
+    "MenpoModel.C01.GenProps3.genRescale_short",
+    "MenpoModel.C01.GenProps3.genResize_eq",
+    "MenpoModel.C01.GenProps3.genCrop_eq",
+    "MenpoModel.C01.GenProps3.genCropToPointcloud_eq",
+    "MenpoModel.C01.GenProps3.genCropToLandmarks_eq",
+    "MenpoModel.C01.GenProps3.genCropToPointcloudProportion_eq",
+    "MenpoModel.C01.GenProps3.genCropToLandmarksProportion_eq",
+    "MenpoModel.C01.GenProps3.genPyramid_eq",
+    "MenpoModel.C01.GenProps3.execObj3_pixel",
+    "MenpoModel.C01.GenProps3.execObj3_run",
+    "MenpoModel.C01.GenProps3.execObj3_frame",
+    "MenpoModel.C01.GenProps3.execObj3_lms",
+    "MenpoModel.C01.GenProps3.execObj3_mask",
+    "MenpoModel.C01.GenProps3.pinv3_translation",
+    "MenpoModel.C01.GenProps3.pinv3_nonUniformScale",
+    "MenpoModel.C01.GenProps3.result3_registered",
+    "MenpoModel.C01.GenProps3.registered3_of_eq",
+    "MenpoModel.C01.GenProps3.registered3_grid",
+    "MenpoModel.C01.GenProps3.result3_registration_affine",
+    "MenpoModel.C01.GenProps3.rescale3_plan_pinv",
+    "MenpoModel.C01.GenProps3.genRescale3_registered",
+    "MenpoModel.C01.GenProps3.genResize3_registered",
+    "MenpoModel.C01.GenProps3.genZoom3_registered",
+    "MenpoModel.C01.GenProps3.genMirror3_registered",
+    "MenpoModel.C01.GenProps3.genCrop3_exact",
+    "MenpoModel.C01.GenProps3.cropResult3_exact",
 ]
 TOL = 1e-9
 TIE = 1e-6
@@ -590,6 +774,57 @@ def gen_constrain(rng, case):
     return {"name": "constrain_landmarks"}
 
 
+def gen_constrain_mask(rng, case):
+    """MaskedImage.constrain_mask_to_landmarks / BooleanImage.constrain_to_landmarks: a group of 3-7 landmarks in general
+    position inside the image (the property's quantifier: landmark groups lying in the image)"""
+    h, w = case["shape"]
+    while True:
+        n = rng.randint(3, 7)
+        pts = [[dy(rng, 0, h - 1, 2), dy(rng, 0, w - 1, 2)] for _ in range(n)]
+        # not (nearly) collinear: the triangulation needs an area
+        area = max(abs((b[0] - a[0]) * (c[1] - a[1]) - (b[1] - a[1]) * (c[0] - a[0]))
+                   for a in pts for b in pts for c in pts)
+        if area >= 2.0 and len({tuple(p) for p in pts}) == n:
+            break
+    case["groups"] = {"g0": pts}
+    if rng.random() < 0.4:
+        case["groups"]["g1"] = gen_landmarks(rng, case["shape"], rng.randint(1, 3))
+    case["lmtype"] = {g: "PointCloud" for g in case["groups"]}
+    return {"name": "constrain_mask", "test": "pwa", "batch": rng.choice([None, None, 7, 100])}
+
+
+def convex_hull(pts):
+    """counter-clockwise convex hull of dyadic points, in exact integer arithmetic (coordinates scaled by 2^8)"""
+    P = sorted({(int(round(p[0] * 256)), int(round(p[1] * 256))) for p in pts})
+
+    def cross(o, a, b):
+        return (a[0] - o[0]) * (b[1] - o[1]) - (a[1] - o[1]) * (b[0] - o[0])
+    lower, upper = [], []
+    for p in P:
+        while len(lower) >= 2 and cross(lower[-2], lower[-1], p) <= 0:
+            lower.pop()
+        lower.append(p)
+    for p in reversed(P):
+        while len(upper) >= 2 and cross(upper[-2], upper[-1], p) <= 0:
+            upper.pop()
+        upper.append(p)
+    return lower[:-1] + upper[:-1]
+
+
+def hull_side(hull, q):
+    """exact position of the integer pixel q relative to the hull (of `convex_hull`): +1 inside, 0 on the boundary,
+    -1 outside"""
+    qx, qy = int(q[0]) * 256, int(q[1]) * 256
+    side = 1
+    for a, b in zip(hull, hull[1:] + hull[:1]):
+        c = (b[0] - a[0]) * (qy - a[1]) - (b[1] - a[1]) * (qx - a[0])
+        if c < 0:
+            return -1
+        if c == 0:
+            side = 0
+    return side
+
+
 FAMILY = ["Rotation", "Similarity", "UniformScale", "NonUniformScale", "Translation", "Affine", "Homogeneous",
           "AlignmentAffine", "AlignmentSimilarity", "AlignmentRotation", "AlignmentTranslation", "AlignmentUniformScale"]
 
@@ -975,7 +1210,7 @@ def call_op(im, case, return_transform=True):
 
 
 def python_snippet(case):
-    if case["op"]["name"] in ("chain", "constrain_landmarks"):
+    if case["op"]["name"] in ("chain", "constrain_landmarks", "constrain_mask"):
         return ("import sys; sys.path[:0] = ['/verif', '/repo']\nfrom harness import c01, common\ncase = %s\n"
                 "# re-run through the harness: ./check C01 --replay <this file>" % json.dumps(case))
     return ("import sys; sys.path[:0] = ['/verif', '/repo']\nfrom harness import c01\ncase = %s\nim = c01.build_image(case)\n"
@@ -1079,7 +1314,7 @@ def all_points(case):
 
 def eff_order(case):
     n = case["op"]["name"]
-    if case["cls"] == "bool" or n.startswith("crop"):
+    if case["cls"] == "bool" or n.startswith("crop") or n == "constrain_mask":
         return 0
     if n in ("rescale_to_diagonal", "gaussian_pyramid", "pyramid"):
         return 1
@@ -1113,7 +1348,7 @@ def inside_src(q, shape, mode, exact=False):
 
 def is_exact(case):
     n = case["op"]["name"]
-    return n.startswith("crop") or n == "mirror"
+    return n.startswith("crop") or n in ("mirror", "constrain_mask")
 
 
 def near_tie(q):
@@ -1446,6 +1681,8 @@ class Run:
             return self.do_chain(case, im)
         if n == "constrain_landmarks":
             return self.do_constrain(case, im)
+        if n == "constrain_mask":
+            return self.do_constrain_mask(case, im)
         src_pixels = im.pixels.astype(float).copy()
         src_mask = im.mask.pixels[0].copy() if case["cls"] == "masked" else None
         lms = all_points(case)
@@ -1583,6 +1820,103 @@ class Run:
         cid = "q%d" % len(self.lines)
         self.lines.append(cid + " " + line)
         self.pending[cid] = (case, [], {"shape": list(case["shape"]), "T": None, "lms": L2.tolist(), "pix": [], "mpix": None})
+
+    def do_constrain_mask(self, case, im):
+        """MaskedImage.constrain_mask_to_landmarks(group) / BooleanImage.constrain_to_landmarks(group): nothing is resampled
+        or re-framed - pixels, shape, class and every landmark group stay (the result is registered through the identity);
+        the new mask is False outside the integer bounding box of the group and inside it says whether the pixel lies in
+        the triangulation of the group (= its convex hull; pixels within TIE of the hull boundary are not judged)"""
+        import numpy as np
+        ctx = self.ctx
+        n = "constrain_mask"
+        op = case["op"]
+        ctx.count("op:" + n)
+        ctx.count("class:%s/%s" % (case["cls"], case["dtype"]))
+        shape = tuple(case["shape"])
+        before_px = im.pixels.copy()
+        before_mask = im.mask.pixels.copy() if case["cls"] == "masked" else None
+        before_lms = {g: np.array(case["groups"][g], dtype=float) for g in case["groups"]}
+        kw = {} if op["batch"] is None else {"batch_size": op["batch"]}
+        try:
+            if case["cls"] == "masked":
+                res = im.constrain_mask_to_landmarks(group="g0", point_in_pointcloud=op["test"], **kw)
+                new_mask = res.mask.pixels[0]
+            else:
+                res = im.constrain_to_landmarks(group="g0", **kw)
+                new_mask = res.pixels[0]
+        except Exception as e:
+            ctx.case(("raises", n, json.dumps(case, sort_keys=True)), nontrivial=True)
+            self.fail(case, "raises", type(e).__name__, "the call raised %s: %s" % (type(e).__name__, str(e)[:200]))
+            return
+        ok = True
+
+        def bad(clause, pattern, text):
+            nonlocal ok
+            if ok:
+                ok = False
+                self.fail(case, clause, pattern, text)
+        # O5: class, shape, groups
+        if type(res).__name__ != type(im).__name__ or tuple(res.shape) != shape:
+            bad("class", "class-or-shape-changed", "result %s %r from %s %r" % (type(res).__name__, res.shape, type(im).__name__, shape))
+        if sorted(res.landmarks.group_labels) != sorted(case["groups"]):
+            bad("landmarks", "groups-lost", "groups %r -> %r" % (sorted(case["groups"]), sorted(res.landmarks.group_labels)))
+        # registered through the identity: landmarks and pixels untouched (in the result and in the source)
+        for g in case["groups"]:
+            if ok and not np.array_equal(res.landmarks[g].points, before_lms[g]):
+                bad("landmarks", "landmarks-moved", "group %s moved: %r -> %r" % (g, before_lms[g].tolist(), res.landmarks[g].points.tolist()))
+            if ok and not np.array_equal(im.landmarks[g].points, before_lms[g]):
+                bad("landmarks", "source-landmarks-moved", "the source's group %s was changed" % g)
+        if case["cls"] == "masked":
+            if ok and not np.array_equal(res.pixels, before_px):
+                bad("pixels", "pixels-changed", "constrain_mask_to_landmarks changed the pixels")
+            if ok and (not np.array_equal(im.pixels, before_px) or not np.array_equal(im.mask.pixels, before_mask)):
+                bad("pixels", "source-changed", "constrain_mask_to_landmarks changed its source")
+        elif ok and not np.array_equal(im.pixels, before_px):
+            bad("pixels", "source-changed", "constrain_to_landmarks changed its source")
+        # the new mask against the convex hull of the group (exact arithmetic)
+        pts = case["groups"]["g0"]
+        lo = [int(min(p[k] for p in pts)) for k in range(2)]
+        hi = [int(max(p[k] for p in pts)) for k in range(2)]
+        judged = 0
+        bits = {}
+        hull = convex_hull(pts)
+        for i in range(shape[0]):
+            for j in range(shape[1]):
+                inbox = lo[0] <= i <= hi[0] and lo[1] <= j <= hi[1]
+                side = hull_side(hull, (i, j))
+                if side == 0:
+                    continue                                      # on the boundary: either answer is accepted
+                want = inbox and side > 0
+                bits[(i, j)] = side > 0
+                judged += 1
+                if ok and bool(new_mask[i, j]) != want:
+                    bad("mask", "mask-not-containment", "pixel %r: new mask %r, in the bounding box %r, inside the hull of the "
+                        "group %r" % ([i, j], bool(new_mask[i, j]), inbox, side > 0))
+        ctx.case((n, json.dumps(case, sort_keys=True)), nontrivial=judged > 0 and bool(new_mask.any()),
+                 sample={"op": op, "cls": case["cls"], "shape": list(shape), "n_landmarks": len(pts), "judged_pixels": judged})
+        if not ok or not self.model:
+            return
+        cand = [p for p in pick_pixels(ctx.rng, shape, 10) if tuple(p) in bits]
+        inner = [list(p) for p in bits if bits[p] and lo[0] <= p[0] <= hi[0] and lo[1] <= p[1] <= hi[1]]
+        ctx.rng.shuffle(inner)
+        pix, seen = [], set()
+        for p in cand + inner[:6]:
+            if tuple(p) not in seen:
+                seen.add(tuple(p))
+                pix.append(p)
+        optok = "constrainmask %d %s" % (len(pix), " ".join("1" if bits[tuple(p)] else "0" for p in pix))
+        lms = all_points(case)
+        line = request_line(case, optok, lms, pix)
+        cid = "q%d" % len(self.lines)
+        self.lines.append(cid + " " + line)
+        if case["cls"] == "masked":
+            obs_pix = [[float(res.pixels[c][tuple(p)]) for c in range(res.n_channels)] for p in pix]
+            mpix = [bool(new_mask[tuple(p)]) for p in pix]
+        else:
+            obs_pix = [[float(new_mask[tuple(p)])] for p in pix]
+            mpix = None
+        L2 = np.vstack([res.landmarks[g].points for g in sorted(case["groups"])])
+        self.pending[cid] = (case, pix, {"shape": list(shape), "T": None, "lms": L2.tolist(), "pix": obs_pix, "mpix": mpix})
 
     def do_chain(self, case, im):
         """a sequence of operations: every step is decided by the oracle against the image it was applied to (whose
@@ -1924,7 +2258,7 @@ OPS2 = [("rescale", 40), ("rescale_to_diagonal", 10), ("rescale_to_pointcloud", 
         ("resize", 20), ("zoom", 20), ("rotate", 40), ("about", 40), ("mirror", 16), ("crop", 30), ("crop_to_pointcloud", 12),
         ("crop_to_landmarks", 12), ("crop_to_pointcloud_proportion", 8), ("crop_to_landmarks_proportion", 8),
         ("crop_to_true_mask", 10), ("warp_to_shape", 40), ("warp_to_mask", 16), ("pyramid", 10), ("gaussian_pyramid", 3),
-        ("warp_class", 36), ("chain", 30), ("constrain_landmarks", 4)]
+        ("warp_class", 36), ("chain", 30), ("constrain_landmarks", 4), ("constrain_mask", 6)]
 NONAFF = [("pwa_shape", 8), ("pwa_mask", 8), ("tps_shape", 6), ("tps_mask", 6)]
 OPS3 = [("rescale", 8), ("resize", 4), ("crop", 8), ("mirror", 4), ("zoom", 4), ("warp_to_shape", 8)]
 
@@ -1953,6 +2287,10 @@ def make_case(rng, dim, name):
     if name == "constrain_landmarks":
         case = base_case(rng, 2)
         case["op"] = gen_constrain(rng, case)
+        return case
+    if name == "constrain_mask":
+        case = base_case(rng, 2, shape=[rng.randint(5, 24), rng.randint(5, 24)], cls=rng.choice(["masked", "masked", "bool"]))
+        case["op"] = gen_constrain_mask(rng, case)
         return case
     if name == "pyramid":
         case = base_case(rng, 2, shape=[rng.randint(24, 40), rng.randint(24, 40)], lm_hi=0.5)
@@ -2029,10 +2367,21 @@ def search(ctx):
 
 
 def generated(ctx):
+    """one lake invocation for everything regenerated from /repo: the three tables recorded from the live classes
+    (harness/extract_c01.py) and the Python-level plumbing of the image operations TRANSLATED from the source text of
+    the working tree (harness/trans_c01.py), each with its obligations (GenProps/C01.lean, GenProps/C01Src*.lean)"""
     files, rows = extract_c01.lean_files(with_counts=True)
-    ok = common.build_generated(ctx, files, extract_c01.TARGETS, extract_c01.N_OBLIGATIONS)
-    ctx.count("regenerated-tables:" + ("ok" if ok else "BROKEN"))
     ctx.notes["regenerated_rows"] = rows
+    from . import trans_c01
+    tfiles, why = trans_c01.generated_files()
+    ctx.notes["source_translation"] = ("ok: %d definitions translated from source (2-D) + %d of them a second time over the "
+                                       "3-D vocabulary" % (trans_c01.N_DEFINITIONS, trans_c01.N_DEFINITIONS3)
+                                       if not why else "untranslatable: " + "; ".join(why))
+    files = dict(files)
+    files.update(tfiles)
+    ok = common.build_generated(ctx, files, extract_c01.TARGETS + trans_c01.GEN_TARGETS,
+                                extract_c01.N_OBLIGATIONS + trans_c01.N_OBLIGATIONS)
+    ctx.count("regenerated-tables+source-translation:" + ("ok" if ok else "BROKEN"))
 
 
 def prepare(ctx):
@@ -2042,7 +2391,7 @@ def prepare(ctx):
     generated(ctx)
     if ctx.broken_obligations:
         imports = [m for m in IMPORTS if "GenProps" not in m]
-        theorems = [t for t in THEOREMS if ".GenProps." not in t]
+        theorems = [t for t in THEOREMS if ".GenProps." not in t and ".GenProps3." not in t]
     else:
         imports, theorems = IMPORTS, THEOREMS
     common.prepare_lean(ctx, PROP, imports, theorems)
